@@ -22,6 +22,38 @@ def tuned_case(e, sh, cs, u, sc, th, cost, prec=1000, FL="-", G="-", K="-", F="-
             f"G={G} K={K} F={F} O={O} I={I}")
 
 
+def elapsed_after(cost, k):
+    """Virtual ticks elapsed (as the loop computes it on the caller's clock) after k tuning rounds of sizes
+    1, 2, 4, ...: every round reads the clock twice (1 tick each) and makes n calls of `cost` ticks."""
+    return sum(2 + (1 << i) * cost for i in range(k))
+
+
+def tuned_max_case(rng, scripts=True):
+    """Tuned sample size with a max_time that is used up in round k: k < R (tuning would need R rounds) ends the
+    run while still tuning, so the reported samples are those of a tuning round; k >= R ends it at or after the
+    round that finishes tuning."""
+    e = rng.choice([0, 1, 2, 3, 4, 5, 2, 4])
+    while True:
+        cost, prec = rng.choice([3, 5, 7, 10, 13, 20, 30]), rng.choice([500, 1000, 2000, 4000])
+        R = tuned_rounds(cost, prec)
+        if 3 <= R <= 7:
+            break
+    k = rng.choice([1, 1, 2, 2, 3, R - 1, R - 1, R, R + 1])
+    k = max(1, k)
+    hi = elapsed_after(cost, k)
+    lo = elapsed_after(cost, k - 1) + 1
+    mx = rng.choice([hi, lo, (lo + hi) // 2])
+    cs = rand_cs(rng, e)
+    kw = {}
+    if scripts:
+        kw = dict(G=rand_script(rng), K=rand_script(rng), F=rand_script(rng, 5), O=rand_script(rng), I=rand_script(rng))
+        if kw["F"] == "-":
+            kw["F"] = rng.choice(["a16", "z32", "a8,d", "a24,g100"])
+    c = tuned_case(e, rng.choice(SHAPES), cs, rng.randrange(2), rng.choice([1, 2, 3, 5]), rng.choice([1, 2, 3]),
+                   cost, prec, **kw)
+    return c.replace(" FL=", f" max={mx} FL=")
+
+
 def tuned_rounds(cost, prec):
     """Number of tuning rounds (sizes 1, 2, 4, ...) until (1 + n*cost) * 1000 / prec > 100."""
     n, r = 1, 1
